@@ -253,12 +253,11 @@ func splitNode[T any](n *node[T], pos int) (*node[T], error) {
 	if p == nil {
 		panic("节点必须要有一个有效的父节点，才能进行拆分")
 	}
-	p.children = removeNodes(p.children, n.segment.Value) // 先从父节点中删除老的 n
-
-	segs, err := n.segment.Split(n.root.interceptors, pos)
+	segs, err := n.segment.Split(n.root.interceptors, pos) // 在修改节点之前确保能正确拆分
 	if err != nil {
 		return nil, err
 	}
+	p.children = removeNodes(p.children, n.segment.Value) // 先从父节点中删除老的 n
 	ret := p.newChild(segs[0])
 	// n 本身作为后一段保留，OPTIONS 和 405 的处理函数引用着该对象。
 	n.segment = segs[1]
